@@ -39,6 +39,85 @@ func runC12(r *Run) {
 	r.rule("C12.R5", "every round closes: EndBlock seals unconditionally, grows the round of every failed TOKEN id, clears the nonces of every sealed FEEDER id, prepares the next round afterwards; force-seal iff validator updates are non-empty", 7)
 	r.rule("C12.R6", "retention: the deleted round is nextRoundID - MaxSizePrices, guarded by a test equivalent to nextRoundID > MaxSizePrices", 2)
 	r.rule("C12.R7", "the median sorts the list before indexing", 1)
+	r.rule("C12.R8", "aggregation arithmetic is side-effect free and complete: the per-source round list can hold MaxDetID ids of every validator; the median does not modify the values it is given; a validator-set update replaces the stored set and total", 4)
+	if cv := w.View("x/oracle/keeper/aggregator", "calculator.newRoundPricesList"); cv == nil {
+		r.bad("C12.R8", "anchor|newRoundPricesList", "-", "anchor", "not found")
+	} else {
+		r.saw(cv.ID())
+		okCap := false
+		for _, c := range allCalls(cv.Decl.Body) {
+			if exprString(c.Fun) == "make" && len(c.Args) == 3 {
+				prod := false
+				ast.Inspect(c.Args[2], func(n ast.Node) bool {
+					if b, ok := n.(*ast.BinaryExpr); ok && b.Op == token.MUL {
+						x := exprString(b)
+						if strings.Contains(x, "MaxDetID") && strings.Contains(x, "validatorLength") {
+							prod = true
+						}
+					}
+					return true
+				})
+				if prod {
+					okCap = true
+				}
+			}
+		}
+		r.check(okCap, "C12.R8", "calculator|round-list-capacity", cv.pos(cv.Decl), "every validator's MaxDetID source rounds fit: capacity = MaxDetID x number of validators", "the per-source round list is not sized MaxDetID x validatorLength: once it is full, a report for a new source round is attributed to the last stored round and its power counts towards a foreign value")
+	}
+	if mv := w.View("x/oracle/keeper/common", "BigIntList.Median"); mv == nil {
+		r.bad("C12.R8", "anchor|Median", "-", "anchor", "not found")
+	} else {
+		r.saw(mv.ID())
+		recv := mv.Info.ObjectOf(mv.Decl.Recv.List[0].Names[0])
+		mut := ""
+		for _, c := range allCalls(mv.Decl.Body) {
+			rc, nm, _, isM := methodCall(c)
+			if !isM {
+				continue
+			}
+			switch nm {
+			case "Add", "Sub", "Mul", "Div", "Quo", "Rem", "Mod", "Set", "SetInt64", "SetUint64", "SetString", "Neg", "Abs", "Lsh", "Rsh", "Exp", "Sqrt":
+				// in place if the receiver of the big.Int method is an element of the list (or an alias of one)
+				for _, d := range mv.resolveDefs(rc, 0) {
+					if ix, ok := stripParens(d).(*ast.IndexExpr); ok && mv.objOf(rootIdent(ix.X)) == recv {
+						mut = mv.pos(c) + " " + exprString(c)
+					}
+				}
+			}
+		}
+		r.check(mut == "", "C12.R8", "median|does-not-modify-inputs", mv.pos(mv.Decl), "the median is computed without changing the reported values (they are shared between reports)", "Median modifies an element of the list in place at "+mut+": a confirmed source price shared by several validators' reports is corrupted for the others and for the final median")
+	}
+	if sv := w.View("x/oracle/keeper/aggregator", "AggregatorContext.SetValidatorPowers"); sv == nil {
+		r.bad("C12.R8", "anchor|SetValidatorPowers", "-", "anchor", "not found")
+	} else {
+		r.saw(sv.ID())
+		var loop *ast.RangeStmt
+		ast.Inspect(sv.Decl.Body, func(n ast.Node) bool {
+			if rs, ok := n.(*ast.RangeStmt); ok && loop == nil {
+				loop = rs
+			}
+			return true
+		})
+		okMap, okTot := false, false
+		for _, as := range sv.assignmentsToField(sv.Decl.Body, "validatorsPower") {
+			if name, _, isC := funcCallName(as.Rhs[0]); isC && name == "make" && loop != nil && as.Pos() < loop.Pos() && !sv.nestedConditionally(as, sv.Decl.Body) {
+				okMap = true
+			}
+			if isParamOf(sv, as.Rhs[0]) && !sv.nestedConditionally(as, sv.Decl.Body) {
+				okMap = true // taking over the given map wholesale is a replacement as well
+			}
+		}
+		for _, as := range sv.assignmentsToField(sv.Decl.Body, "totalPower") {
+			if loop != nil && as.Pos() < loop.Pos() && !sv.nestedConditionally(as, sv.Decl.Body) {
+				s0 := exprString(as.Rhs[0])
+				if strings.HasSuffix(s0, "NewInt(0)") || strings.Contains(s0, "new(big.Int)") && !strings.Contains(s0, "totalPower") {
+					okTot = true
+				}
+			}
+		}
+		r.check(okMap, "C12.R8", "validators|set-replaced", sv.pos(sv.Decl), "a validator-set update replaces the stored set (a removed validator is gone)", "SetValidatorPowers fills the existing map without replacing it: a removed validator keeps its old power, still passes the sender check and counts against the smaller total")
+		r.check(okTot, "C12.R8", "validators|total-recomputed", sv.pos(sv.Decl), "the total power restarts from zero before it is accumulated", "SetValidatorPowers does not reset totalPower before accumulating")
+	}
 
 	need := func(rel, name string) *FnView {
 		v := w.View(rel, name)
